@@ -1,0 +1,25 @@
+//go:build verif
+
+// Contracts for contract-based verification (/verif). Comment-only: with or without the
+// build tag "verif" this file adds nothing to the compiled package.
+
+package standalone
+
+// C17: the per-request settings of a direct invoke (payload limit, response mode, bandwidth rate and burst) are package-level
+// variables of directinvoke, read when the runtime's response is forwarded. A request that the server refuses (the reservation
+// is already being invoked: a duplicate or retried request) must leave them as the invocation in flight set them.
+//@ event DirectInvokeDispatched = ret rapidcore/standalone.(InteropServer).FastInvoke
+//@ event DirectInvokeRefusedByServer = ret rapidcore/standalone.(InteropServer).FastInvoke when r0 == rapidcore.ErrAlreadyInvocating || r0 == rapidcore.ErrAlreadyReplied || r0 == rapidcore.ErrNotReserved
+
+// the interop server's methods do not write the settings (ReceiveDirectInvoke is their only writer)
+//@ func (InteropServer).FastInvoke
+//@   modifies httpOut
+//@ func (InteropServer).AwaitInitialized
+//@   modifies nothing
+//@ func (InteropServer).CurrentToken
+//@   modifies nothing
+//@ func (InteropServer).InternalState
+//@   modifies nothing
+
+//@ func DirectInvokeHandler
+//@   ensures [C17: a-request-the-server-refuses-leaves-the-settings-of-the-invocation-in-flight-alone] delta(DirectInvokeRefusedByServer) == 1 ==> directinvoke.MaxDirectResponseSize == old(directinvoke.MaxDirectResponseSize) && directinvoke.InvokeResponseMode == old(directinvoke.InvokeResponseMode) && directinvoke.ResponseBandwidthRate == old(directinvoke.ResponseBandwidthRate) && directinvoke.ResponseBandwidthBurstSize == old(directinvoke.ResponseBandwidthBurstSize)
